@@ -208,7 +208,10 @@ def run_read(c):
     scale = c.get('scale', 1)
     enc = FusionEngineEncoder()
     per_entry = []
-    for e in c['entries']:
+    nreq = len(c['entries'])
+    # 'extra_entries' are in the file too but are not requested by the aligned read; those listed in 'pre' are read
+    # earlier on the SAME loader (caching on), and read once more afterwards
+    for e in c['entries'] + c.get('extra_entries', []):
         cls = get_class(e['cls'])
         lst = []
         for t, ident in e['msgs']:
@@ -230,21 +233,47 @@ def run_read(c):
     fd, path = tempfile.mkstemp(suffix='.p1log', dir=c['tmpdir'])
     os.write(fd, blob); os.close(fd)
     try:
-        classes = [cls for cls, _ in per_entry]
-        req = [(cls if c.get('read_as') == 'class' else cls.MESSAGE_TYPE) for cls in classes]
-        ref = DataLoader(path, save_index=False, ignore_index=True, num_threads=1).read(message_types=list(req), quiet=True)
-        hashes = []
+        all_classes = [cls for cls, _ in per_entry]
+        as_req = lambda lst: [(cls if c.get('read_as') == 'class' else cls.MESSAGE_TYPE) for cls in lst]
+        ref = DataLoader(path, save_index=False, ignore_index=True, num_threads=1).read(message_types=as_req(all_classes), quiet=True)
+        all_hashes, ref_canon = [], {}
         for cls, lst in per_entry:
             got = ref[cls.MESSAGE_TYPE].messages if cls.MESSAGE_TYPE in ref else []
             if len(got) != len(lst):
                 return 'SKIP:unaligned read returned %d of %d %s' % (len(got), len(lst), cls.__name__)
             hm = {}
-            for m, (ident, t, _) in zip(got, lst):
-                hm.setdefault(json.dumps(canon(vars(m)), sort_keys=True, default=str), []).append((ident, t))
-            hashes.append(hm)
+            ref_canon[cls] = [json.dumps(canon(vars(m)), sort_keys=True, default=str) for m in got]
+            for h, (ident, t, _) in zip(ref_canon[cls], lst):
+                hm.setdefault(h, []).append((ident, t))
+            all_hashes.append(hm)
+        classes, hashes = all_classes[:nreq], all_hashes[:nreq]
+        req = as_req(classes)
         st = {k: c.get(k) for k in ('mode', 'mt', 'mt_as', 'mt_container')}
-        res = DataLoader(path, save_index=False, ignore_index=True, num_threads=1).read(
-            message_types=list(req), time_align=MODES[c['mode']], aligned_message_types=make_mt(st), quiet=True)
+        loader = DataLoader(path, save_index=False, ignore_index=True, num_threads=1)
+        pre = [all_classes[nreq + i] for i in c.get('pre', [])] + [classes[i] for i in c.get('pre_requested', [])]
+        earlier = []
+        if pre:
+            early = loader.read(message_types=as_req(pre), quiet=True)
+            for cls in pre:
+                md = early[cls.MESSAGE_TYPE]
+                earlier.append((cls, md, md.messages, list(md.messages)))
+        res = loader.read(message_types=list(req), time_align=MODES[c['mode']], aligned_message_types=make_mt(st), quiet=True)
+        side = []
+        for cls, md, lst, elems in earlier:
+            # (b) what an earlier read returned is not touched by a later aligned read
+            now = md.messages
+            if len(now) != len(elems) or any(a is not b for a, b in zip(now, elems)) or \
+                    [json.dumps(canon(vars(m)), sort_keys=True, default=str) for m in elems] != ref_canon[cls]:
+                side.append('EARLIER')
+                break
+        if pre:
+            # (c) reading the earlier types again on this loader gives what a fresh loader gives
+            again = loader.read(message_types=as_req(pre), quiet=True)
+            for cls in pre:
+                got = again[cls.MESSAGE_TYPE].messages if cls.MESSAGE_TYPE in again else None
+                if got is None or [json.dumps(canon(vars(m)), sort_keys=True, default=str) for m in got] != ref_canon[cls]:
+                    side.append('REREAD')
+                    break
         out = []
         for cls, hm in zip(classes, hashes):
             if cls.MESSAGE_TYPE not in res:
@@ -268,6 +297,8 @@ def run_read(c):
         s = 'OK ' + ' '.join(out)
         if set(res.keys()) != set(cls.MESSAGE_TYPE for cls in classes):
             s += ' KEYS'
+        for f in side:
+            s += ' ' + f
         return s + ' | lists='
     finally:
         os.unlink(path)
